@@ -28,7 +28,7 @@ ALPHABET = [b"only_root", b"only_uid:1000,65534", b"exclude_uid:0", b"exclude_ui
 UIDS = [0, 1000, 65534]
 
 
-def scenario(out, chain, uid, tty, errmode=False, pre_errno=0, emptyparent=False):
+def scenario(out, chain, uid, tty, errmode=False, pre_errno=0, emptyparent=False, stdin=None, pending=False):
     opts = [(b"output", b"file:" + out.encode() + b"/log"), (b"message_format", b"REC %{cmdline}"), (b"filter_chain", chain)]
     if errmode:
         # error logging on and a message that does not fit: a DROPPED call must still be silent
@@ -40,17 +40,22 @@ def scenario(out, chain, uid, tty, errmode=False, pre_errno=0, emptyparent=False
         # the calling process's parent has an empty kernel name: the process tree cannot be read beyond it, exclude_spawns_of
         # must pass -- and the filters behind it must still be consulted
         ops.append(drv.op("F", b""))
-    ops.append(drv.op("S", 0, "pty" if tty else "pipein"))
+    # stdin: terminal / pipe / closed / null device (tty == True only for "pty")
+    ops.append(drv.op("S", 0, stdin or ("pty" if tty else "pipein")))
+    if pending:
+        # the caller has unflushed bytes in its own stdout buffer: a dropped call (and any call not using the stdout output) leaves them there
+        ops.append(drv.op("w", b"PENDING-DATA-OF-THE-CALLER"))
     if uid != 0:
         ops.append(drv.op("U", -1, -1, -1, uid, uid if uid != 1000 else 0, -1))   # real uid set, effective differs for 1000
     # the caller's errno is an input too: whatever it holds when exec is called must not influence the decision
-    ops += [drv.op("Q"), drv.op("e", pre_errno), drv.op_exec("e", b"/bin/x", [b"x", b"y"], [b"K=v"], ret=-1, err=2), drv.op("L"), drv.op("G")]
+    # (op L flushes the harness's own stdio buffers: left out when the case is about data pending in them)
+    ops += [drv.op("Q"), drv.op("e", pre_errno), drv.op_exec("e", b"/bin/x", [b"x", b"y"], [b"K=v"], ret=-1, err=2)] + ([] if pending else [drv.op("L")]) + [drv.op("G")]
     return ops, ini
 
 
-def run_chain(d, chain, uid, tty, errmode=False, pre_errno=0, emptyparent=False):
+def run_chain(d, chain, uid, tty, errmode=False, pre_errno=0, emptyparent=False, stdin=None, pending=False):
     """-> (logged: bool)  raises Failure on any other violation."""
-    ops, ini = scenario(d.out, chain, uid, tty, errmode, pre_errno, emptyparent)
+    ops, ini = scenario(d.out, chain, uid, tty, errmode, pre_errno, emptyparent, stdin, pending)
     if any(len(l) > 1022 for l in ini.split(b"\n")):
         return None
     res = d.scenario(ops)
@@ -129,7 +134,8 @@ def strategy():
         return {"els": els, "perm": perm, "dup": dup, "trailing": trailing, "uid": draw(st.sampled_from(UIDS)),
                 "tty": draw(st.booleans()), "errmode": draw(st.sampled_from([False, False, False, True])),
                 "pre_errno": draw(st.sampled_from([0, 0, 34, 4, 2, 11, 22, 75])),
-                "emptyparent": draw(st.sampled_from([False] * 4 + [True]))}
+                "emptyparent": draw(st.sampled_from([False] * 4 + [True])),
+                "stdin": draw(st.sampled_from([None, None, None, "closed", "null"])), "pending": draw(st.sampled_from([False, False, True]))}
     return case()
 
 
@@ -139,12 +145,13 @@ def evaluate(env, c):
     em = c.get("errmode", False)
     pe = c.get("pre_errno", 0)
     ep = c.get("emptyparent", False)
-    r0 = run_chain(d, base, c["uid"], c["tty"], em, pe, ep)
+    si, pd = c.get("stdin"), c.get("pending", False)
+    r0 = run_chain(d, base, c["uid"], c["tty"], em, pe, ep, si, pd)
     if r0 is None:
         return
     for name in ("perm", "dup"):
         ch = b";".join(c[name])
-        r = run_chain(d, ch, c["uid"], c["tty"], em, pe, ep)
+        r = run_chain(d, ch, c["uid"], c["tty"], em, pe, ep, si, pd)
         if r is not None and r != r0:
             # cannot happen if both agree with the model, kept as an independent metamorphic oracle
             raise Failure("decision changed under %s of the chain elements" % name, {"chain": base, "variant": ch}, key="metamorphic")
@@ -176,6 +183,10 @@ def classify(c):
         cls.append("trailing-semicolon")
     if c.get("errmode"):
         cls.append("error_logging+overlong-message")
+    if c.get("stdin"):
+        cls.append("stdin:" + c["stdin"])
+    if c.get("pending"):
+        cls.append("caller-has-unflushed-stdout-data")
     if c.get("emptyparent"):
         cls.append("nameless-parent(tree-unreadable)")
         if any(e.startswith(b"exclude_spawns_of") for e in c["els"][:-1]):
@@ -208,7 +219,8 @@ def exhaustive_worker(args):
                     local.count(("ex",) + (key or ("t", chain, uid, tty)) if key else None, ["exhaustive"] + cls,
                                 sample={"chain": chain, "uid": uid, "stdin_tty": tty})
                     try:
-                        run_chain(d, chain, uid, tty, False, 34 if n % 3 == 0 else 0, n % 5 == 0)
+                        run_chain(d, chain, uid, tty, False, 34 if n % 3 == 0 else 0, n % 5 == 0,
+                                  None if tty or n % 4 else ("closed" if n % 8 else "null"), n % 7 == 0)
                     except Failure as f:
                         if len(fails) < 1:
                             fails.append({"case": {"els": c["els"], "perm": c["els"], "dup": c["els"], "trailing": b"",
